@@ -212,7 +212,7 @@ def handleLine (st : DState) (line : String) : DState × Option String :=
     | some n => ({ st with fault := some n }, none)
     | none => (st, some "bad-op")
   | ["end"] =>
-    (st, some s!"Z created={st.w.created} drops={st.w.dropLog.length}")
+    (st, some s!"Z created={st.w.created} drops={if st.cfg.hasDrop then st.w.dropLog.length else 0}")
   | _ =>
     match parseOp toks with
     | none => (st, some "bad-op")
